@@ -50,7 +50,8 @@ class SchemaField:
             FIXMessageError: raised if validation failed
         """
         assert isinstance(value, str), "value must be a string"
-        assert value, "empty value"
+        if not value:
+            raise FIXMessageError(f"{self} validation error: empty value")
 
         if self.values:
             if value not in self.values:
@@ -77,7 +78,7 @@ class SchemaField:
                 err = SchemaField._validate_value_number(
                     value, float, no_nonfinite=True
                 )
-            elif t in {"STRING", "MULTIPLESTRINGVALUE"}:
+            elif t in {"STRING", "MULTIPLESTRINGVALUE", "MULTIPLEVALUESTRING"}:
                 err = SchemaField._validate_value_str(value)
             elif t in {"CHAR"}:
                 err = SchemaField._validate_value_str(value, max_len=1)
@@ -126,9 +127,15 @@ class SchemaField:
 
         try:
             dtm.datetime.strptime(value, format)
-            return None  # all good
         except Exception as exc:
             return str(exc)
+
+        # strptime() is lenient (unpadded or non-ASCII digits, spaces): check layout
+        layout = re.escape(format).replace("%Y", "[0-9]{4}").replace("%f", "[0-9]{1,6}")
+        layout = re.sub("%[mdHMS]", "[0-9]{2}", layout)
+        if not re.fullmatch(layout, value):
+            return f"time data {value!r} does not match format {format!r}"
+        return None  # all good
 
     @staticmethod
     def _validate_value_monthyear(value):
@@ -199,6 +206,13 @@ class SchemaField:
                 raise ValueError("not isfinite number")
             if num_range and not (v >= num_range[0] and v <= num_range[1]):
                 raise ValueError(f"out of range {num_range}")
+            # int() / float() are lenient (sign +, spaces, underscores, exponent,
+            #   non-ASCII digits): FIX allows only minus, digits and decimal point
+            if num_type is int:
+                if not re.fullmatch(r"-?[0-9]+", value):
+                    raise ValueError(f"invalid int number format: {value!r}")
+            elif not re.fullmatch(r"-?([0-9]+\.?[0-9]*|\.[0-9]+)", value):
+                raise ValueError(f"invalid float number format: {value!r}")
             # all good
             return None
         except ValueError as exc:
